@@ -22,6 +22,24 @@ theorem width_wf (a : Rect) (h : a.WF) : a.width = (a.c2 : Int) - a.c1 + 1 := by
   have : ¬ (a.c1 = 0 ∨ a.c2 = 0) := by omega
   simp [this]
 
+/-- one axis, both operands bounded -/
+theorem axis_bounded (i : Bool) (a1 a2 b1 b2 : Nat) (ha1 : 1 ≤ a1) (ha : a1 ≤ a2) (hb1 : 1 ≤ b1) (hb : b1 ≤ b2) :
+    combineAxis i a1 b1 ((a2 : Int) - a1 + 1) ((b2 : Int) - b1 + 1) false =
+      if i then (if max a1 b1 ≤ min a2 b2 then some (max a1 b1, min a2 b2) else none)
+      else some (min a1 b1, max a2 b2) := by
+  have e1 : ¬ a1 = 0 := by omega
+  have e2 : ¬ b1 = 0 := by omega
+  unfold combineAxis
+  cases i
+  · simp only [Bool.false_eq_true, ↓reduceIte, e1, e2]
+    rw [if_neg (by omega)]
+    congr 2 <;> omega
+  · simp only [↓reduceIte, e1, e2]
+    by_cases h : max a1 b1 ≤ min a2 b2
+    · rw [if_neg (by omega), if_pos h]
+      congr 2 <;> omega
+    · rw [if_pos (by omega), if_neg h]
+
 /-- closed form of `&` on well-formed rectangles of one sheet -/
 theorem inter_eq (a b : Rect) (ha : a.WF) (hb : b.WF) (hs : a.sheet = b.sheet) :
     a.inter b =
@@ -32,13 +50,16 @@ theorem inter_eq (a b : Rect) (ha : a.WF) (hb : b.WF) (hs : a.sheet = b.sheet) :
   rw [height_wf a ha, width_wf a ha, height_wf b hb, width_wf b hb]
   obtain ⟨h1, h2, h3, h4⟩ := ha
   obtain ⟨g1, g2, g3, g4⟩ := hb
-  simp only [hs, ↓reduceIte, ne_eq, not_true_eq_false, and_false, ite_self]
-  split
-  · rename_i h
-    rw [if_neg (by omega)]
-  · rename_i h
-    rw [if_pos (by omega)]
-    congr 2 <;> omega
+  have e1 : ¬ a.c1 = 0 := by omega
+  have e2 : ¬ a.r1 = 0 := by omega
+  have e3 : ¬ b.c1 = 0 := by omega
+  have e4 : ¬ b.r1 = 0 := by omega
+  have e5 : ¬ a.c2 = 0 := by omega
+  have e6 : ¬ a.r2 = 0 := by omega
+  simp only [hs, ↓reduceIte, ne_eq, not_true_eq_false, and_false, e1, e2, e3, e4, e5, e6, decide_false,
+    Bool.or_self, Bool.and_false, Bool.false_and, Bool.not_false, Bool.and_self,
+    axis_bounded true a.c1 a.c2 b.c1 b.c2 h1 h2 g1 g2, axis_bounded true a.r1 a.r2 b.r1 b.r2 h3 h4 g3 g4]
+  by_cases p : max a.c1 b.c1 ≤ min a.c2 b.c2 <;> by_cases q : max a.r1 b.r1 ≤ min a.r2 b.r2 <;> simp [p, q]
 
 /-- closed form of `**` on well-formed rectangles of one sheet -/
 theorem union_eq (a b : Rect) (ha : a.WF) (hb : b.WF) (hs : a.sheet = b.sheet) :
@@ -47,9 +68,127 @@ theorem union_eq (a b : Rect) (ha : a.WF) (hb : b.WF) (hs : a.sheet = b.sheet) :
   rw [height_wf a ha, width_wf a ha, height_wf b hb, width_wf b hb]
   obtain ⟨h1, h2, h3, h4⟩ := ha
   obtain ⟨g1, g2, g3, g4⟩ := hb
-  simp only [hs, ↓reduceIte, ne_eq, not_true_eq_false, and_false, ite_self, Bool.false_eq_true]
-  rw [if_neg (by omega)]
-  congr 2 <;> omega
+  have e1 : ¬ a.c1 = 0 := by omega
+  have e2 : ¬ a.r1 = 0 := by omega
+  have e3 : ¬ b.c1 = 0 := by omega
+  have e4 : ¬ b.r1 = 0 := by omega
+  have e5 : ¬ a.c2 = 0 := by omega
+  have e6 : ¬ a.r2 = 0 := by omega
+  have e7 : ¬ b.c2 = 0 := by omega
+  have e8 : ¬ b.r2 = 0 := by omega
+  simp only [hs, ↓reduceIte, ne_eq, not_true_eq_false, and_false, e1, e2, e3, e4, e5, e6, e7, e8, decide_false,
+    Bool.or_self, Bool.false_eq_true, Bool.not_false, Bool.and_false,
+    axis_bounded false a.c1 a.c2 b.c1 b.c2 h1 h2 g1 g2, axis_bounded false a.r1 a.r2 b.r1 b.r2 h3 h4 g3 g4]
+
+/-! SPANMARK -/
+/-! ### whole rows / columns: an unbounded side (both corners 0) reads as 1..MAX -/
+
+/-- a rectangle whose sides are each bounded (1 ≤ lo ≤ hi) or unbounded (both corners 0): `A1:B2`, `A:C`, `1:3` -/
+def Rect.GWF (a : Rect) : Prop :=
+  ((1 ≤ a.c1 ∧ a.c1 ≤ a.c2) ∨ (a.c1 = 0 ∧ a.c2 = 0)) ∧ ((1 ≤ a.r1 ∧ a.r1 ≤ a.r2) ∨ (a.r1 = 0 ∧ a.r2 = 0))
+
+instance (a : Rect) : Decidable a.GWF := by unfold Rect.GWF; infer_instance
+
+/-- the bounded rectangle an address denotes on the sheet: an unbounded side becomes 1..MAX_COL / 1..MAX_ROW -/
+def Rect.span (a : Rect) : Rect :=
+  ⟨a.sheet, if a.c1 = 0 then 1 else a.c1, if a.r1 = 0 then 1 else a.r1,
+   if a.c1 = 0 ∨ a.c2 = 0 then MAX_COL else a.c2, if a.r1 = 0 ∨ a.r2 = 0 then MAX_ROW else a.r2⟩
+
+theorem wf_gwf (a : Rect) (h : a.WF) : a.GWF := ⟨Or.inl ⟨h.1, h.2.1⟩, Or.inl ⟨h.2.2.1, h.2.2.2⟩⟩
+
+theorem span_wf (a : Rect) (h : a.GWF) : a.span.WF := by
+  obtain ⟨hc, hr⟩ := h
+  unfold Rect.WF Rect.span MAX_COL MAX_ROW Gen.maxCol Gen.maxRow
+  rcases hc with hc | hc <;> rcases hr with hr | hr <;> simp only <;>
+    (have : ¬ a.c1 = 0 ∨ a.c1 = 0 := by omega) <;> (split <;> split <;> split <;> split <;> omega)
+
+theorem span_of_wf (a : Rect) (h : a.WF) : a.span = a := by
+  obtain ⟨h1, h2, h3, h4⟩ := h
+  obtain ⟨s, c1, r1, c2, r2⟩ := a
+  simp only at h1 h2 h3 h4
+  have e1 : ¬ c1 = 0 := by omega
+  have e2 : ¬ r1 = 0 := by omega
+  have e3 : ¬ c2 = 0 := by omega
+  have e4 : ¬ r2 = 0 := by omega
+  simp [Rect.span, e1, e2, e3, e4]
+
+/-- `&` / `**` see an address only through its span -/
+theorem combine_span (i : Bool) (a b : Rect) (ha : a.GWF) (hb : b.GWF) :
+    combineCore i a b a.height a.width b.height b.width =
+      combineCore i a.span b.span a.span.height a.span.width b.span.height b.span.width := by
+  have key : ∀ x : Rect, x.GWF →
+      x.span.height = x.height ∧ x.span.width = x.width ∧ x.span.sheet = x.sheet ∧
+      (if x.span.c1 = 0 then (1 : Int) else (x.span.c1 : Int)) = (if x.c1 = 0 then (1 : Int) else (x.c1 : Int)) ∧
+      (if x.span.r1 = 0 then (1 : Int) else (x.span.r1 : Int)) = (if x.r1 = 0 then (1 : Int) else (x.r1 : Int)) := by
+    intro x hx
+    obtain ⟨hc, hr⟩ := hx
+    unfold Rect.height Rect.width Rect.span MAX_COL MAX_ROW Gen.maxCol Gen.maxRow
+    simp only [true_and]
+    refine ⟨?_, ?_, ?_, ?_⟩
+    · rcases hr with hr | hr
+      · have e1 : ¬ x.r1 = 0 := by omega
+        have e2 : ¬ x.r2 = 0 := by omega
+        simp [e1, e2]
+      · simp [hr.1, hr.2]
+    · rcases hc with hc | hc
+      · have e1 : ¬ x.c1 = 0 := by omega
+        have e2 : ¬ x.c2 = 0 := by omega
+        simp [e1, e2]
+      · simp [hc.1, hc.2]
+    · by_cases e : x.c1 = 0 <;> simp [e]
+    · by_cases e : x.r1 = 0 <;> simp [e]
+  obtain ⟨a1, a2, a3, a4, a5⟩ := key a ha
+  obtain ⟨b1, b2, b3, b4, b5⟩ := key b hb
+  unfold combineCore
+  simp only [a1, a2, a3, a4, a5, b1, b2, b3, b4, b5]
+
+theorem inter_span (a b : Rect) (ha : a.GWF) (hb : b.GWF) : a.inter b = a.span.inter b.span :=
+  combine_span true a b ha hb
+
+theorem union_span (a b : Rect) (ha : a.GWF) (hb : b.GWF) : a.union b = a.span.union b.span :=
+  combine_span false a b ha hb
+
+/-- whole columns `c1:c2` against the used area (1,1,mc,mr) of a sheet (for C05's `clip`): no edge condition -/
+theorem inter_unbounded_cols (s : List Char) (c1 c2 mc mr : Nat) (h1 : 1 ≤ c1) (h2 : c1 ≤ c2) (hmc : 1 ≤ mc)
+    (hmr : 1 ≤ mr) (hr : mr ≤ MAX_ROW) :
+    (⟨s, c1, 0, c2, 0⟩ : Rect).inter ⟨s, 1, 1, mc, mr⟩ =
+      if c1 ≤ mc then .rect ⟨s, c1, 1, min c2 mc, mr⟩ else .null := by
+  have ga : (⟨s, c1, 0, c2, 0⟩ : Rect).GWF := ⟨Or.inl ⟨h1, h2⟩, Or.inr ⟨rfl, rfl⟩⟩
+  have gb : (⟨s, 1, 1, mc, mr⟩ : Rect).GWF := wf_gwf _ ⟨Nat.le_refl 1, hmc, Nat.le_refl 1, hmr⟩
+  rw [inter_span _ _ ga gb,
+    inter_eq (Rect.span ⟨s, c1, 0, c2, 0⟩) (Rect.span ⟨s, 1, 1, mc, mr⟩) (span_wf _ ga) (span_wf _ gb) rfl]
+  have e1 : ¬ c1 = 0 := by omega
+  have e2 : ¬ c2 = 0 := by omega
+  have e3 : ¬ mc = 0 := by omega
+  have e4 : ¬ mr = 0 := by omega
+  unfold MAX_ROW Gen.maxRow at hr
+  simp only [Rect.span, e1, e2, e3, e4, ↓reduceIte, or_self, MAX_ROW, Gen.maxRow,
+    Nat.one_ne_zero]
+  by_cases h : c1 ≤ mc
+  · rw [if_pos (by omega), if_pos h]
+    simp only [Res.rect.injEq, Rect.mk.injEq, true_and]; omega
+  · rw [if_neg (by omega), if_neg h]
+
+/-- whole rows `r1:r2` against the used area (1,1,mc,mr) of a sheet (for C05's `clip`): no edge condition -/
+theorem inter_unbounded_rows (s : List Char) (r1 r2 mc mr : Nat) (h1 : 1 ≤ r1) (h2 : r1 ≤ r2) (hmc : 1 ≤ mc)
+    (hmr : 1 ≤ mr) (hc : mc ≤ MAX_COL) :
+    (⟨s, 0, r1, 0, r2⟩ : Rect).inter ⟨s, 1, 1, mc, mr⟩ =
+      if r1 ≤ mr then .rect ⟨s, 1, r1, mc, min r2 mr⟩ else .null := by
+  have ga : (⟨s, 0, r1, 0, r2⟩ : Rect).GWF := ⟨Or.inr ⟨rfl, rfl⟩, Or.inl ⟨h1, h2⟩⟩
+  have gb : (⟨s, 1, 1, mc, mr⟩ : Rect).GWF := wf_gwf _ ⟨Nat.le_refl 1, hmc, Nat.le_refl 1, hmr⟩
+  rw [inter_span _ _ ga gb,
+    inter_eq (Rect.span ⟨s, 0, r1, 0, r2⟩) (Rect.span ⟨s, 1, 1, mc, mr⟩) (span_wf _ ga) (span_wf _ gb) rfl]
+  have e1 : ¬ r1 = 0 := by omega
+  have e2 : ¬ r2 = 0 := by omega
+  have e3 : ¬ mc = 0 := by omega
+  have e4 : ¬ mr = 0 := by omega
+  unfold MAX_COL Gen.maxCol at hc
+  simp only [Rect.span, e1, e2, e3, e4, ↓reduceIte, or_self, MAX_COL, Gen.maxCol,
+    Nat.one_ne_zero]
+  by_cases h : r1 ≤ mr
+  · rw [if_pos (by omega), if_pos h]
+    simp only [Res.rect.injEq, Rect.mk.injEq, true_and, and_true]; omega
+  · rw [if_neg (by omega), if_neg h]
 
 theorem contains_iff (a : Rect) (c : Cell) :
     a.contains c = true ↔ a.r1 ≤ c.row ∧ c.row ≤ a.r2 ∧ a.c1 ≤ c.col ∧ c.col ≤ a.c2 := by
